@@ -68,6 +68,12 @@ def run_smt(h, scratch, logdir, tier):
 
 
 def cex_text(c):
+    if c.get("trunc"):
+        # a literal whose first 19 digits are w and that continues: its exact value lies just below (w+1)*10^e
+        ws = str(c["w"])
+        if len(ws) == 17:     # what the fraction reader keeps: d.dddddddddddddddd then the dropped digits
+            return "%s%s.%s%se%d" % ("-" if c.get("neg") else "", ws[0], ws[1:], "9" * 340, c["exp10"] + 16)
+        return "%s%s%se%d" % ("-" if c.get("neg") else "", ws, "9" * 340, c["exp10"] - 340)
     return "%s%de%d" % ("-" if c.get("neg") else "", c["w"], c["exp10"])
 
 
